@@ -94,6 +94,27 @@ let run_sub_case hd body =
   | ["SUB"; "D"; lk; n] -> let hs = lk <> "none" in let o = List.map parse_dop ops in emit_ms (d_sub_case hs !variant (ni n) o sset so) (d_sub_spec hs (ni n) o sset so fmap)
   | ["SUB"; "U"; lk; n] -> let hs = lk <> "none" in let o = List.map parse_uop ops in emit_ms (u_sub_case hs !variant (ni n) o sset so) (u_sub_spec hs (ni n) o sset so fmap)
   | _ -> failwith "bad SUB case"
+let once = ref true            (* repaired: findAllVertexPredecessors enqueues a vertex on first discovery only *)
+let run_path_case hd body =
+  let parts = String.split_on_char '|' body in
+  let opsof str = List.filter (fun t -> t <> []) (List.map toks (String.split_on_char ';' str)) in
+  let ops, q = (match parts with [a; b] -> opsof a, toks b | [a] -> opsof a, [] | _ -> failwith "bad PATH/DJ case") in
+  let s, t = (match q with [s] -> ni s, ni "0" | s :: t :: _ -> ni s, ni t | [] -> ni "0", ni "0") in
+  let il = Array.of_list (List.map segs_of_iline (List.filter (fun l -> l = "I" || (String.length l >= 2 && String.sub l 0 2 = "I ")) !ilines)) in
+  let seg k j = if k < Array.length il then (match List.nth_opt il.(k) j with Some x -> x | None -> []) else [] in
+  let zl = List.map z_of_int in
+  let hd1 l = match l with x :: _ -> z_of_int x | [] -> z_of_int (-1) in
+  match hd with
+  | ["PATH"; cls; _; n] ->
+    let im = { pi_pred = zl (seg 0 1); pi_scans1 = hd1 (seg 0 2); pi_scans2 = hd1 (seg 1 2); pi_path = zl (seg 2 0); pi_from = zl (seg 4 0) } in
+    if cls = "D" then (let o = List.map parse_dop ops in emit_ms (d_path_case !variant !once (ni n) o s t) (d_path_spec !variant (ni n) o s t im))
+    else (let o = List.map parse_uop ops in emit_ms (u_path_case !variant !once (ni n) o s t) (u_path_spec !variant (ni n) o s t im))
+  | ["DJ"; cls; _; n] ->
+    let ipred = zl (seg 0 1) and cs = List.map (fun x -> nat_of_int (min x 1000)) (seg 0 3) in
+    let o = List.map parse_wop ops in
+    if cls = "DW" then emit_ms (dw_dj_case !variant (ni n) o s cs) (dw_dj_spec !variant (ni n) o s ipred cs)
+    else emit_ms (uw_dj_case !variant (ni n) o s cs) (uw_dj_spec !variant (ni n) o s ipred cs)
+  | _ -> failwith "bad PATH/DJ case"
 let run_case line =
   match String.index_opt line ':' with
   | None -> failwith ("bad case: " ^ line)
@@ -102,6 +123,7 @@ let run_case line =
     if (match hd with "EQ" :: _ -> true | _ -> false) then run_eq_case hd body else
     if (match hd with "CV" :: _ | "EL" :: _ -> true | _ -> false) then run_conv_case hd body else
     if (match hd with "SUB" :: _ -> true | _ -> false) then run_sub_case hd body else
+    if (match hd with "PATH" :: _ | "DJ" :: _ -> true | _ -> false) then run_path_case hd body else
     let ops = List.filter (fun t -> t <> []) (List.map toks (String.split_on_char ';' body)) in
     (match hd with
      | ["D"; lk; n] ->
@@ -116,7 +138,7 @@ let run_case line =
      | ["UW"; _; n] -> let ops = List.map (qwrap parse_wop) ops in emit_ms (uw_trace_z !variant !uw_canon (ni n) ops) (if !fspec then w_fspec_trace true (ni n) ops else w_spec_trace true (ni n) ops)
      | _ -> failwith ("unknown class in: " ^ line))
 let () =
-  Array.iter (fun a -> if a = "pinned" then (variant := pinned; um_set0 := false; uw_canon := false); if a = "fspec" then fspec := true; if a = "nokeep" then keep_label := false) Sys.argv;
+  Array.iter (fun a -> if a = "pinned" then (variant := pinned; um_set0 := false; uw_canon := false); if a = "fspec" then fspec := true; if a = "nokeep" then keep_label := false; if a = "requeue" then once := false) Sys.argv;
   let lines = ref [] in
   (try while true do lines := input_line stdin :: !lines done with End_of_file -> ());
   let rec go = function
